@@ -14,6 +14,7 @@ import (
 	"runtime"
 	"sort"
 	"strconv"
+	"strings"
 	"sync"
 	"time"
 )
@@ -375,7 +376,15 @@ func (r *Report) RunVariant() {
 		r.Set("small_thresholds_variant", "not built")
 		return
 	}
-	out, err := exec.Command(variant, r.Property, "--sub", string(r.Tier)).Output()
+	cmd := exec.Command(variant, r.Property, "--sub", string(r.Tier))
+	for _, e := range os.Environ() {
+		// the variant supervises its own exploring process
+		if !strings.HasPrefix(e, "VERIF_CHILD=") && !strings.HasPrefix(e, "VERIF_SLOTS=") {
+			cmd.Env = append(cmd.Env, e)
+		}
+	}
+	cmd.Stderr = os.Stderr
+	out, err := cmd.Output()
 	if err != nil {
 		HarnessError("small-thresholds variant: %v", err)
 	}
